@@ -42,6 +42,7 @@ def run_contract(args):
     sink = Sink()
     modules = {}
     witnesses = []
+    partial = []
     meta = {'assumptions': set(), 'dropped': set(), 'n_paths': 0, 'paths_without_call': 0}
     err = None
     counter = {'n': 0}
@@ -52,6 +53,15 @@ def run_contract(args):
         ctx = SymCtx(c, path, REPO_ROOT, cfg, modules, sink, pid)
         try:
             c.fn(ctx)
+        except (OutOfSubset, Budget):
+            # the engine gives up on this path: keep an input that reaches this point, it is executed natively
+            try:
+                w = ctx.witness()
+                if w is not None:
+                    partial.append({'path': pid, 'values': w})
+            except Exception:
+                pass
+            raise
         finally:
             meta['assumptions'].update(ctx.I.assumptions)
             meta['dropped'].update(ctx.I.dropped)
@@ -80,14 +90,15 @@ def run_contract(args):
     except Exception as e:
         err = {'kind': 'engine', 'text': 'crash %s: %s\n%s' % (type(e).__name__, e, traceback.format_exc()[-3000:])}
     return {'contract': cname, 'funcs': c.funcs, 'clause': c.clause, 'records': [r.as_dict() for r in sink.records],
-            'covers': sink.covers, 'witnesses': witnesses, 'stats': stats, 'error': err,
+            'covers': sink.covers, 'witnesses': witnesses, 'partial_witnesses': partial, 'stats': stats, 'error': err,
             'assumptions': sorted(meta['assumptions']), 'dropped': sorted(meta['dropped']), 'n_paths': meta['n_paths'],
             'paths_no_witness': meta.get('paths_no_witness', 0), 'wall_s': time.time() - t0,
             'float_mode': c.opts.get('float_mode', 'FP'), 'bounded': c.opts.get('bounded')}
 
 
-def native_run(prop, items, timeout=600):
-    job = {'repo_root': REPO_ROOT, 'verif_root': VERIF_ROOT, 'prop': prop, 'items': items}
+def native_run(prop, items, timeout=600, stop_on_fail=False, call_timeout_s=15):
+    job = {'repo_root': REPO_ROOT, 'verif_root': VERIF_ROOT, 'prop': prop, 'items': items, 'stop_on_fail': stop_on_fail,
+           'call_timeout_s': call_timeout_s}
     env = dict(os.environ)
     env['PYTHONPATH'] = REPO_ROOT + os.pathsep + VERIF_ROOT
     p = subprocess.run([NATIVE_PY, '-m', 'pyvc.nativectx'], input=json.dumps(job), capture_output=True, text=True,
@@ -167,10 +178,12 @@ def check_property(prop, tier='quick', seed=0, only=None, verbose=False):
     need = [r for r in results if (r['error'] and r['error']['kind'] == 'undecided') or
             any(x['status'] == 'undecided' or (x['status'] == 'failed' and x['cls'] == 'A') for x in r['records'])]
     if need and not native_err:
-        sitems = [{'contract': r['contract'], 'values': {}, 'tag': 'sample:%d' % i, 'sample_seed': seed * 100003 + i}
-                  for r in need for i in range(n_samples)]
+        sitems = [{'contract': r['contract'], 'values': w['values'], 'tag': 'partial:%d' % w['path'], 'sample_seed': seed * 100003 + 7}
+                  for r in need for w in r.get('partial_witnesses', [])]
+        sitems += [{'contract': r['contract'], 'values': {}, 'tag': 'sample:%d' % i, 'sample_seed': seed * 100003 + i}
+                   for r in need for i in range(n_samples)]
         try:
-            sruns = native_run(prop, sitems, timeout=1200)
+            sruns = native_run(prop, sitems, timeout=1200, stop_on_fail=True, call_timeout_s=5)
             for it, run in zip(sitems, sruns):
                 standin.setdefault(it['contract'], []).append(run)
         except Exception as e:
